@@ -151,6 +151,12 @@ def beBytes : Nat → Nat → Bytes
 def serialize (f : RawFrame) : Bytes :=
   beBytes 3 f.payload.length ++ beBytes 1 f.ftype ++ beBytes 1 f.flags ++ beBytes 4 f.sid ++ f.payload
 
+/-- the CONTINUATION frames carrying the fragments `ps` (the last one with END_HEADERS) -/
+def contFrames (sid : Nat) : List Bytes → List RawFrame
+  | [] => []
+  | [p] => [⟨9, 4, sid, p⟩]
+  | p :: q :: ps => ⟨9, 0, sid, p⟩ :: contFrames sid (q :: ps)
+
 /-! ### raw frame -> the abstract frame of Model/H2.lean -/
 
 def u31 (n : Nat) : Nat := n % 2147483648
